@@ -5,7 +5,7 @@ from ..loader import AnalysisError, norm, walk_shallow
 from ..cfg import build_cfg
 from ..flow import Flow, NONE, NOTNONE, TRUE, FALSE, TRUTHY, FALSY, is_const, valuations
 from ..inter import Inter
-from ..util import callee_name, all_calls, arg, need, single_def, names_in
+from ..util import callee_name, all_calls, arg, need, single_def, names_in, assignments_to
 from .. import base_rules
 from . import shared, sweep, harvest, c04
 from .shared import CROP
@@ -78,6 +78,24 @@ def last_result_rule(ctx, rid):
         fl = Flow(g, {"to_df": val}).run()
         st = [n for n in g.nodes if n.id in fl.visited and n.kind == "stmt" and isinstance(n.ast, ast.Assign) and norm(n.ast.targets[0]) == attr]
         rets = [n for n in g.nodes if n.id in fl.visited and n.kind == "stmt" and isinstance(n.ast, ast.Return)]
+        # setattr(runner, '_last_df' if to_df else '_last_ds', data)
+        sa = None
+        for n in g.nodes:
+            if n.id in fl.visited and n.kind == "stmt" and isinstance(n.ast, ast.Expr) and isinstance(n.ast.value, ast.Call) and norm(n.ast.value.func) == "setattr" and len(n.ast.value.args) == 3:
+                o, nm_e, v_e = n.ast.value.args
+                sel = nm_e
+                if isinstance(nm_e, ast.IfExp) and norm(nm_e.test) == "to_df":
+                    sel = nm_e.body if val == TRUE else nm_e.orelse
+                elif isinstance(nm_e, ast.IfExp) and norm(nm_e.test) == "not to_df":
+                    sel = nm_e.orelse if val == TRUE else nm_e.body
+                if isinstance(sel, ast.Constant) and "%s.%s" % (norm(o), sel.value) == attr:
+                    sa = (n, v_e)
+        if sa is not None and not st:
+            if all(g.completes_before(sa[0].id, r.id, feasible=fl.feasible) for r in rets) and all(norm(r.ast.value) == norm(sa[1]) for r in rets):
+                rr.ok("to_df=%s: setattr(..., %r, data) on every normal exit" % (val[1], attr))
+            else:
+                rr.bad(ctx.finding(rid, f, f.node, "with to_df=%s reap_runner does not record the reaped data as %s before returning it" % (val[1], attr), construct="last-result " + attr), "last result %s" % attr)
+            continue
         if st and all(g.completes_before(st[0].id, r.id, feasible=fl.feasible) for r in rets) and all(norm(r.ast.value) == norm(st[0].ast.value) for r in rets):
             rr.ok("to_df=%s: %s = data on every normal exit" % (val[1], attr))
         else:
@@ -279,10 +297,37 @@ def sow_constants_rule(ctx, rid):
     cv = arg(calls[0], None, "constants")
     txt = norm(cv) if cv is not None else ""
     expanded = txt
-    for nmx in names_in(cv) if cv is not None else ():
-        d = single_def(rrn, nmx)
-        if d:
-            expanded += " " + norm(d[1])
+    todo, seen_n = list(names_in(cv)) if cv is not None else [], set()
+    while todo:
+        nmx = todo.pop()
+        if nmx in seen_n or nmx in ("self", "runner"):
+            continue
+        seen_n.add(nmx)
+        for _, dv_ in assignments_to(rrn, nmx):
+            if dv_ is not None:
+                expanded += " " + norm(dv_)
+                todo += list(names_in(dv_))
+        for st_ in ast.walk(rrn.node):
+            if isinstance(st_, ast.Expr) and isinstance(st_.value, ast.Call) and isinstance(st_.value.func, ast.Attribute) and st_.value.func.attr == "update" and norm(st_.value.func.value) == nmx:
+                for a_ in st_.value.args:
+                    expanded += " " + norm(a_)
+                    todo += list(names_in(a_))
+    # the runner's own mapping must not be written to while labelling (parse_constants / dictify hand a dict back unchanged, i.e. the same object)
+    for st_ in ast.walk(rrn.node):
+        recv = None
+        if isinstance(st_, ast.Expr) and isinstance(st_.value, ast.Call) and isinstance(st_.value.func, ast.Attribute) and st_.value.func.attr in ("update", "setdefault", "pop", "clear") and isinstance(st_.value.func.value, ast.Name):
+            recv = st_.value.func.value.id
+        elif isinstance(st_, ast.Assign) and isinstance(st_.targets[0], ast.Subscript) and isinstance(st_.targets[0].value, ast.Name):
+            recv = st_.targets[0].value.id
+        if recv is None:
+            continue
+        for _, dv_ in assignments_to(rrn, recv):
+            if dv_ is None:
+                continue
+            fresh = isinstance(dv_, (ast.Dict, ast.DictComp)) or (isinstance(dv_, ast.Call) and (norm(dv_.func) in ("dict", "copy.copy", "copy.deepcopy") or (isinstance(dv_.func, ast.Attribute) and dv_.func.attr == "copy")))
+            if not fresh and ("runner._constants" in norm(dv_) or "runner._resources" in norm(dv_) or "runner._attrs" in norm(dv_)):
+                rr.bad(ctx.finding(rid, rrn, st_, "`%s` writes into `%s`, which is the runner's own stored mapping (`%s` hands a dict back unchanged): the constants of this one sow are left in the runner, so its next run or crop computes and labels with them"
+                                   % (norm(st_)[:60], recv, norm(dv_)[:50]), construct="runner-mapping-mutated"), "reap_runner leaves the runner's mappings alone")
     if "constants" in keys:
         if "runner._constants" in expanded and ("load_info" in expanded or "settings" in expanded) and "'constants'" in expanded:
             rr.ok("reap_runner labels with the runner's constants overridden by the crop's persisted ones")
